@@ -315,7 +315,9 @@ def S.astring (cfg : Cfg) (s : S) : Option Bytes × S :=
   | (none, s) =>
     match s.literal cfg with
     | (some v, s) => (some v, s)
-    | (none, s) => s.expectAtom
+    | (none, s) =>
+      -- a malformed or refused literal has set the decoder error: what follows is not an atom
+      if s.err.isSome then (none, s) else s.expectAtom
 
 def inboxName : Bytes := [73, 78, 66, 79, 88]
 
@@ -529,20 +531,23 @@ def S.flagList (s : S) : Bool × Option Err × S :=
 /-! ## raw lines (bufio.Reader.ReadLine, Conn.readLine) -/
 
 /-- a raw line: content (without the line end), whether it was longer than the 4096-octet
-    buffer, and the number of octets consumed; none when the stream ends first.
+    buffer, the number of octets consumed, and whether the stream ended inside it; none when
+    nothing usable came before the end of the stream.
     ReadLine: the line ends at LF, one CR before it is dropped; isPrefix when no LF is found
-    within 4096 octets. -/
-def rawLine (fx : Fixes) (inp : Bytes) : Option (Bytes × Bool × Nat) :=
+    within 4096 octets; at the end of the stream a non-empty partial line is returned as a line. -/
+def rawLine (fx : Fixes) (inp : Bytes) : Option (Bytes × Bool × Nat × Bool) :=
   let body := inp.takeWhile (· != 10)
-  if body.length == inp.length then none           -- no LF: blocks, then EOF
+  if body.length == inp.length then
+    -- no LF: the read blocks; when the client leaves, what is there counts as a line
+    if body.isEmpty || body.length ≥ 4096 then none else some (body, false, body.length, true)
   else if body.length < 4096 then
     let content := if body.getLast? == some 13 then body.dropLast else body
-    some (content, false, body.length + 1)
-  else if fx.raw then some ([], true, body.length + 1)       -- the whole line is consumed
+    some (content, false, body.length + 1, false)
+  else if fx.raw then some ([], true, body.length + 1, false)       -- the whole line is consumed
   else
     -- Legacy: only the first buffer-full is consumed (one octet less when it ends in CR)
     let first := body.take 4096
-    some ([], true, if first.getLast? == some 13 then 4095 else 4096)
+    some ([], true, if first.getLast? == some 13 then 4095 else 4096, false)
 
 /-! ## standard base64 (encoding/base64 StdEncoding.DecodeString, non-strict) and SASL PLAIN -/
 
@@ -770,8 +775,9 @@ def hAuthenticate (cfg : Cfg) (s : S) : Option Err × S :=
               let s := s.emit (.cont s.pos)
               match rawLine cfg.fx s.inp with
               | none => (some .eof, (s.take s.inp.length .line).emit .eof)
-              | some (line, tooLong, k) =>
+              | some (line, tooLong, k, atEnd) =>
                 let s := s.take k .line
+                let s := if atEnd then s.emit .eof else s
                 if tooLong then (some .internal, s)
                 else if line == [42] then (some .bad, s)
                 else
@@ -786,8 +792,9 @@ def hIdle (cfg : Cfg) (s : S) : Option Err × S :=
       let s := (s.emit (.cont s.pos)).emit (call .idle)
       match rawLine cfg.fx s.inp with
       | none => (none, (s.take s.inp.length .line).emit .eof)      -- err == io.EOF: return nil
-      | some (line, tooLong, k) =>
+      | some (line, tooLong, k, atEnd) =>
         let s := s.take k .line
+        let s := if atEnd then s.emit .eof else s
         if tooLong || line != k_DONE then (some .bad, s) else (none, s)
 
 /-- handleSearch over the modelled keys -/
@@ -861,6 +868,8 @@ def readCommand (cfg : Cfg) (s0 : S) : Bool × S :=
   match s.expectAtom with
   | (none, s) => (false, s)
   | (some tag, s) =>
+    if tag.contains 43 then (false, s.fail .expect)       -- "+" is not allowed in a tag
+    else
     match s.expectSP with
     | (false, s) => (false, s)
     | (true, s) =>
@@ -926,6 +935,9 @@ def serve (cfg : Cfg) (inp : Bytes) : List Event := (run cfg inp).evs.reverse
 def rolesOf (cfg : Cfg) (inp : Bytes) : List Role := (run cfg inp).roles.reverse
 
 def depthOf (cfg : Cfg) (inp : Bytes) : Nat := (run cfg inp).depth
+
+/-- octets of an ASCII string (drivers and examples; not used by the model itself) -/
+def strBytes (s : String) : Bytes := s.toUTF8.toList.map (·.toNat)
 
 namespace Legacy
 /-- the server before the repairs recorded in known_findings.json -/
